@@ -397,3 +397,9 @@ func axBEFixedMin(v Mathint, n int) {}
 //@ lemma auto trusted
 //@ ensures v >= 0 && v < ECOrder(CurveP384()) ==> BitLenOf(v) <= 384
 func axP384OrderBits(v Mathint) {}
+
+// Multiples of base-point multiples (same group facts as axECMulMul, for points given as k*G).
+//
+//@ lemma auto trusted
+//@ ensures a >= 0 && b >= 0 ==> ECMulX(c, a, ECBaseX(c, b), ECBaseY(c, b)) == ECBaseX(c, (a*b)%ECOrder(c)) && ECMulY(c, a, ECBaseX(c, b), ECBaseY(c, b)) == ECBaseY(c, (a*b)%ECOrder(c))
+func axECMulBase(c elliptic.Curve, a, b Mathint) {}
